@@ -7,6 +7,9 @@ Ltac Zify.zify_post_hook ::= Z.div_mod_to_equations.
    Part 1: one event block against the event-stream parser
    ============================================================================================ *)
 
+Lemma frev_rev {A} (l : list A) : frev l = rev l.
+Proof. unfold frev. symmetry. apply rev_alt. Qed.
+
 Lemma no_crlf_cons c l : no_crlf (c :: l) = true <-> (c <> 13 /\ c <> 10 /\ no_crlf l = true).
 Proof.
   unfold no_crlf. cbn [forallb]. rewrite andb_true_iff, negb_true_iff, orb_false_iff, !N.eqb_neq. tauto.
@@ -63,7 +66,7 @@ Lemma sse_lines_aux_line l : forall cur rest,
   sse_lines_aux cur false (l ++ 10 :: rest) = (rev cur ++ l) :: sse_lines_aux [] false rest.
 Proof.
   induction l as [|c l IH]; intros cur rest H.
-  - cbn [app sse_lines_aux]. rewrite N.eqb_refl, app_nil_r. reflexivity.
+  - cbn [app sse_lines_aux]. rewrite N.eqb_refl, app_nil_r, frev_rev. reflexivity.
   - apply no_crlf_cons in H as (H13 & H10 & Hl). cbn [app sse_lines_aux].
     apply N.eqb_neq in H13, H10. rewrite H10, H13. rewrite IH by assumption.
     cbn [rev]. rewrite <- app_assoc. reflexivity.
@@ -100,7 +103,7 @@ Proof.
              (concat (map (fun l => t_data ++ l ++ [10]) (data_lines d)) ++ 10 :: rest) =
              (map (fun l => t_data ++ l) (data_lines d) ++ [[]]) ++ sse_lines_aux [] false rest).
   { intros d. rewrite data_block_lines by apply data_lines_no_crlf.
-    cbn [sse_lines_aux]. rewrite N.eqb_refl. cbn [rev]. rewrite <- app_assoc. reflexivity. }
+    cbn [sse_lines_aux]. rewrite N.eqb_refl, frev_rev. cbn [rev]. rewrite <- app_assoc. reflexivity. }
   destruct e as [d|t d]; cbn [ev_data ev_type] in *.
   - cbn [app]. apply D.
   - unfold ev_wf in W. cbn [ev_type] in W. rewrite <- !app_assoc. cbn [app].
@@ -142,7 +145,7 @@ Proof.
       rewrite IH by discriminate.
       change (join_lf (l :: l2 :: r')) with (l ++ 10 :: join_lf (l2 :: r')).
       rewrite <- !app_assoc. reflexivity. }
-  rewrite (H ls NE). rewrite rev_app_distr. cbn [rev app]. now rewrite rev_involutive.
+  rewrite (H ls NE). rewrite frev_rev, rev_app_distr. cbn [rev app]. now rewrite frev_rev, rev_involutive.
 Qed.
 
 Lemma data_buffer_nonempty ls : ls <> [] -> concat (map (fun l => l ++ [10]) ls) <> [].
@@ -696,7 +699,7 @@ Qed.
 Lemma block_never_ends_with_blank_line e : ends_with_blank_line (encode_event e) = false.
 Proof.
   destruct (last_two_of_block e) as (pre & c & -> & H10 & H13).
-  unfold ends_with_blank_line. rewrite rev_app_distr. cbn [rev app].
+  unfold ends_with_blank_line. rewrite frev_rev, rev_app_distr. cbn [rev app].
   destruct c as [|p]; [reflexivity|].
   do 4 (destruct p as [p|p|]; try reflexivity); congruence.
 Qed.
